@@ -526,7 +526,7 @@ func TestC07Replay(t *testing.T) {
 // C16: lexer definitions survive JSON serialisation
 
 const c16Rule = "generated rule sets (all action kinds, nested includes, patterns with quotes, backslashes, <>&, non-ASCII) x inputs; " +
-	"oracle (round trip + differential): New(Unmarshal(Marshal(definition))) and New(Unmarshal(Marshal(rules))), each built twice from the same unmarshalled value " +
+	"single-state rule sets without actions are built through NewSimple (one rule listed twice); oracle (round trip + differential): New(Unmarshal(Marshal(definition))) and New(Unmarshal(Marshal(rules))), each built twice from the same unmarshalled value " +
 	"and lexed with before anything asks for their symbols, produce the same token stream / error as the original definition and then have equal Symbols(); non-trivial = the definition has an include and a push/pop " +
 	"and the input reaches a second state; distinct by SHA-256 of (rules, input)"
 
